@@ -330,9 +330,20 @@ func genC05Case(r *rand.Rand, clients, readers, opsPer int, churn bool) c05Case 
 					}
 					ops = append(ops, c05Op{Client: cl, Kind: "batch", DS: []string{d}, IDs: l, Tag: tag, Sync: 1000 + i})
 				case 1:
-					ops = append(ops, c05Op{Client: cl, Kind: "rename1", DS: []string{d, d + "x"}, Sync: 1000 + i})
+					if i%20 == 16 {
+						// variant: a one-entity write through a handle resolved before the delete queues up behind the
+						// long batch ...
+						ops = append(ops, c05Op{Client: cl, Kind: "qwrite", DS: []string{d}, IDs: []string{fmt.Sprintf("%srdq-%d", gen.NsA, i)}, Tag: tag, Sync: 1000 + i})
+					} else {
+						ops = append(ops, c05Op{Client: cl, Kind: "rename1", DS: []string{d, d + "x"}, Sync: 1000 + i})
+					}
 				case 2:
-					ops = append(ops, c05Op{Client: cl, Kind: "rmds", DS: []string{d}, Sync: 1000 + i})
+					if i%20 == 16 {
+						// ... while the dataset is deleted and created again under the same name
+						ops = append(ops, c05Op{Client: cl, Kind: "rmmk", DS: []string{d}, Sync: 1000 + i})
+					} else {
+						ops = append(ops, c05Op{Client: cl, Kind: "rmds", DS: []string{d}, Sync: 1000 + i})
+					}
 				}
 				continue
 			}
@@ -926,6 +937,43 @@ func c05Do(core *hub.Core, op c05Op, rec *c05Rec, visMu *sync.Mutex, vis *[]stri
 			}
 		}
 		rec.err = "dataset is between two names"
+	case "qwrite":
+		ds := core.Dsm.GetDataset(op.DS[0])
+		if ds == nil {
+			rec.err = "no such dataset"
+			return
+		}
+		esp := server.NewEntityStreamParser(core.Store)
+		var batch []*server.Entity
+		if err := esp.ParseStream(bytes.NewReader(gen.Payload([]model.Ent{c05Ent(op.IDs[0], op.Tag, 0)}, false)), func(e *server.Entity) error {
+			batch = append(batch, e)
+			return nil
+		}); err != nil {
+			rec.err = err.Error()
+			return
+		}
+		c05WaitHeld("ds:" + op.DS[0])
+		if err := ds.StoreEntities(batch); err != nil {
+			rec.err = err.Error()
+		}
+	case "rmmk":
+		c05WaitHeld("ds:" + op.DS[0])
+		time.Sleep(300 * time.Microsecond)
+		if ds := core.Dsm.GetDataset(op.DS[0]); ds != nil {
+			iid := ds.InternalID
+			if err := core.Dsm.DeleteDataset(op.DS[0]); err != nil {
+				rec.err = err.Error()
+				return
+			}
+			c05DeletedMu.Lock()
+			c05DeletedIDs[fmt.Sprintf("%p", core)] = append(c05DeletedIDs[fmt.Sprintf("%p", core)], iid)
+			c05DeletedMu.Unlock()
+			if _, err := core.Dsm.CreateDataset(op.DS[0], nil); err != nil {
+				rec.err = err.Error()
+			}
+		} else {
+			rec.err = "no such dataset"
+		}
 	case "rmds":
 		if op.Sync >= 1000 {
 			// the delete of the rendezvous comes a moment after the rename started to wait
